@@ -594,6 +594,67 @@ def main(run):
         run.count("api " + name)
         run.count("projection" if proj else "no-projection")
 
+    # ---------------------------------------------------------------- description invariance: the same crystal on relabelled (left-handed) lattice vectors
+    nrel = 4 if thorough else 2
+    for n_ in range(nrel):
+        name = rng.choice(["nacl_prim", "cscl", "zincblende_prim"])
+        mname = rng.choice(["swap12", "negate3", "invert"]) if n_ == 0 else rng.choice(sorted(gen.UNIMODULAR))
+        with_nac = (n_ % 2 == 0) if rng.random() < 0.8 else rng.random() < 0.5
+        cell0, _cen = gen.make_cell(name)
+        cell1, qmap_, smap_ = gen.relabelled_cell(cell0, gen.UNIMODULAR[mname])
+        nm_ = rng.choice([3, 5]) if rng.random() < 0.6 else rng.choice([2, 4])
+        kwm = dict(is_gamma_center=True)
+        cutf = rng.choice([0.3, 0.8])
+        temps = [0.0, 2.0, 60.0, 300.0, 1500.0]
+        res = []
+        failed = False
+        for cell_, smat_ in ((cell0, np.diag([2, 2, 2])), (cell1, smap_(np.diag([2, 2, 2])))):
+            try:
+                ph = gen.make_phonopy(cell_, smat_, pmat="P")
+                ph.force_constants = gen.pair_fc(ph.supercell, cutoff=0.9 * gen.min_lattice_vector(ph.supercell.cell) / 2 * 1.2)
+                if with_nac:
+                    npa = len(ph.primitive)
+                    zs = [1.1 * (-1) ** a_ for a_ in range(npa)]
+                    zs[-1] -= sum(zs)  # neutral
+                    ph.nac_params = dict(born=np.array([z_ * np.eye(3) for z_ in zs]), dielectric=2.4 * np.eye(3), factor=14.399652)
+                ph.run_mesh([nm_, nm_, nm_], **kwm)
+                with warnings.catch_warnings():
+                    warnings.simplefilter("ignore")
+                    with np.errstate(all="ignore"):
+                        ph.run_thermal_properties(temperatures=temps, cutoff_frequency=cutf)
+            except Exception as e_:
+                if cell_ is cell0:
+                    raise
+                # the original description of the same crystal went through: a failing input of the public call sequence
+                run.violation("Phonopy.run_thermal_properties (relabelled lattice vectors)", "description-dependence",
+                              "%s: %s on the relabelled (%s) description; the original description of the same crystal works" % (type(e_).__name__, e_, mname),
+                              dict(cell=name, relabelling=mname, lattice=np.array(cell_.cell).tolist(), volume=float(cell_.volume), supercell_matrix=np.array(smat_).tolist(),
+                                   mesh=[nm_] * 3, nac=with_nac, cutoff_frequency=cutf))
+                failed = True
+                break
+            dd = ph.get_thermal_properties_dict()
+            info_r = dict(cell=name, relabelling=mname if cell_ is cell1 else "original", lattice=np.array(cell_.cell).tolist(), volume=float(cell_.volume), supercell_matrix=np.array(smat_).tolist(),
+                          mesh=[nm_] * 3, gamma_centred=True, nac=with_nac, cutoff_frequency=cutf, temperatures=temps)
+            against_closed_form(run, units, "Phonopy.run_thermal_properties (relabelled lattice vectors)", "closed-form",
+                                (dd["temperatures"], dd["free_energy"], dd["entropy"], dd["heat_capacity"]), np.array(ph.mesh.frequencies), list(map(int, ph.mesh.weights)), temps, info_r, cut=cutf)
+            res.append((dd, info_r, np.array(ph.mesh.frequencies), np.array(ph.mesh.weights)))
+        if failed:
+            continue
+        (d0, i0, f0_, w0_), (d1, i1, f1_, w1_) = res
+        kJ_ = units.EvTokJmol * units.Kb * 1000 * f0_.shape[1]
+        # frequencies within 1e-6 THz of the cutoff may fall on either side of it in the two descriptions (rounding): then the comparison says nothing
+        edge = bool(np.any(np.abs(f0_ - cutf) < 1e-6) or np.any(np.abs(f1_ - cutf) < 1e-6))
+        if not edge:
+            for key, fl in (("free_energy", units.EvTokJmol * float(np.abs(f0_).max()) * units.THzToEv * f0_.shape[1]), ("entropy", kJ_), ("heat_capacity", kJ_)):
+                if not all(same(float(a_), float(b_), fl, 1e-8) for a_, b_ in zip(d1[key], d0[key])):
+                    run.violation("Phonopy.run_thermal_properties (relabelled lattice vectors)", "description-dependence",
+                                  "%s differs between the original and the relabelled (%s, det %+d) description of the same crystal: %r vs %r" % (
+                                      key, mname, int(round(np.linalg.det(np.array(gen.UNIMODULAR[mname])))), np.array(d1[key]).tolist(), np.array(d0[key]).tolist()), i1)
+                    break
+        run.case(("relabel", name, mname, nm_, with_nac, cutf), nontrivial=True)
+        run.count("relabelled description %s (det %+d)%s" % (mname, int(round(np.linalg.det(np.array(gen.UNIMODULAR[mname])))), " with NAC" if with_nac else ""))
+        run.count("oracle-description-invariance", section="oracle")
+
     # ================================================================== model run
     out = common.lean_run_driver("C10", lines)
     if len(out) != len(lines):
